@@ -29,7 +29,7 @@ partial def showVal : Val → String
   | .null => "N"
   | .bool b => if b then "b1" else "b0"
   | .int i => s!"i{i}"
-  | .bytes bs => "x" ++ toHex bs
+  | .bytes bs => if bs.isEmpty then "x" else "x" ++ toHex bs
   | .list vs => "[" ++ ",".intercalate (vs.map showVal) ++ "]"
   | .struct vs => "{" ++ ",".intercalate (vs.map showVal) ++ "}"
   | .union i v => s!"u{i}:" ++ showVal v
